@@ -94,6 +94,11 @@ def record_case(seed):
     d, mask = _build(data, bad, as_mask)
     if mask is not None and rng.random() < 0.3 and bad:
         d[bad[0][0], bad[0][1]] = np.inf       # masked AND non-finite
+    if kind != 'center' and seed % 5 == 2 and np.all(np.isfinite(d)):
+        # the image stored in an integer dtype (raw counts; multiplied so that sums of fractional weights differ visibly from integers)
+        dtc = [np.int32, np.uint8, np.int16][seed % 3] if mode != 'random' else np.int32
+        d = (d * 3).astype(dtc)
+        data = [[v * 3 for v in row] for row in data]
     cx4, cy4 = rng.randint(-8, 4 * w + 8), rng.randint(-8, 4 * h + 8)
     nr = rng.randint(2, 5)
     r4 = sorted(rng.sample(range(0 if rng.random() < 0.3 else 1, 25), nr))
@@ -123,8 +128,12 @@ def record_case(seed):
            'subpixels': sub, 'has_error': has_err, 'nonneg': mode in ('nonneg', 'constant'), 'constant': data[0][0] if mode == 'constant' and not bad else -1}
     rpos = [r for r in radii if r > 0]
     off = len(radii) - len(rpos)
-    cog = CurveOfGrowth(d, xy, rpos, error=e, mask=mask, method=method, subpixels=sub)
-    rp = RadialProfile(d, xy, radii, error=e, mask=mask, method=method, subpixels=sub)
+    rpos_arg, radii_arg = (np.array(rpos, dtype=float), np.array(radii, dtype=float)) if seed % 3 == 0 else (rpos, radii)
+    cog = CurveOfGrowth(d, xy, rpos_arg, error=e, mask=mask, method=method, subpixels=sub)
+    rp = RadialProfile(d, xy, radii_arg, error=e, mask=mask, method=method, subpixels=sub)
+    if seed % 3 == 0:
+        # the caller re-uses its radii buffer (e.g. for a second binning) before the lazily evaluated profiles are first read
+        rpos_arg *= 2.0; radii_arg *= 2.0
     cf = [0.0] * off + [float(v) for v in cog.profile]
     ca = [0.0] * off + [float(v) for v in cog.area]
     ce = [0.0] * off + ([float(v) for v in cog.profile_error] if has_err else [0.0] * len(rpos))
